@@ -34,7 +34,8 @@ def run(tier, seed):
                                       "--faultmode", "3", "--maximages", "100", "--cc", "0"]))
     jobs += ce.full_device_jobs(rng, 8 if tier == "quick" else 48, maximages="300" if tier == "quick" else "1500")
     jobs += ce.huge_extent_jobs(rng, 1 if tier == "quick" else 6)
-    jobs += ce.huge_reuse_jobs(rng, 4 if tier == "quick" else 16)
+    jobs += ce.huge_reuse_jobs(rng, 2 if tier == "quick" else 16)
+    jobs += ce.huge_pair_jobs(rng, 3 if tier == "quick" else 9)
     # MC: write-behind / journal / retirement protocol, every crash image of every reachable state
     mc_viol = []
     mcs = [ce.mc_model(rd, "MCWriteBehind", "MCWriteBehind_quick_warm.cfg" if tier == "quick" else "MCWriteBehind_full_warm.cfg",
